@@ -23,6 +23,9 @@
    all give the same two cases; so does `x.map(f).transpose().map(|o| o.unwrap_or_else(|| d))`: a closure applied to a
    payload that is itself decided (`Ok(None)`, `Ok(Some(v))`) is entered with that literal, decisions on it are resolved
    (`shape_value`, `reduce_literals`), and `unwrap_or` / `unwrap_or_else` / calls through closure / fn-pointer values are cases too.
+   A decision on the result of a private classifier function (every result a literal variant of a workspace enum:
+   `match Kind::from(x) { Kind::A(p) => .., _ => .. }`) is replaced by the classifier's guards, its payloads by what the
+   classifier put there (`expand_enums`).
 
 2. `Normal` — normal form of a value with workspace helpers inlined and success payloads in `mk_unwrap` form (to a fixed
    point), remembering with which arguments each helper was entered.  Calls through a closure / fn-pointer value whose
@@ -307,7 +310,7 @@ class Cases:
             vv = reduce_literals(subst(v, m, self.sl)) if m else v
             for gs, sh in self.value_cases(vv, m, stack + (g.path,)):
                 out.append((self._uniq(tuple(atoms) + tuple(gs)), sh))
-        return out
+        return out if stack else expand_enums(self, out)
 
     def call_cases(self, f, args, m=None, stack=()):
         """cases of calling closure / fn item value f with argument values"""
@@ -1039,7 +1042,94 @@ def elem_cases(C, seq):
             if sh[0] == 'Err' and _tried(tr(v)) is not None and _tried(tr(v)) in propagated:
                 continue
             out.append((C._uniq(tuple(atoms) + tuple(gs)), sh))
-    return [(tuple(a for a in atoms if a != ('true',)), sh) for atoms, sh in expand_atoms(C, out) if feasible(atoms)]
+    return [(tuple(a for a in atoms if a != ('true',)), sh) for atoms, sh in expand_enums(C, expand_atoms(C, out)) if feasible(atoms)]
+
+
+def _replace(v, target, new):
+    """v with every sub-value whose canonical form is `target` replaced by `new`; projections of the (now literal) aggregate
+    are resolved: `(AGG as V).f` -> the field value"""
+    if isinstance(v, frozenset):
+        return frozenset(_replace(x, target, new) for x in v)
+    if not isinstance(v, tuple) or not v or v[0] in _LEAF:
+        return v
+    if v[0] == 'call' and canon(v) == target:
+        return new
+    out = tuple(_replace(x, target, new) if isinstance(x, (tuple, frozenset)) else x for x in v)
+    if out[0] == 'variant' and len(out) == 3 and isinstance(out[1], tuple) and out[1] and out[1][0] == 'agg' and out[1][2] == out[2]:
+        return out[1]
+    if out[0] == 'field' and len(out) == 3 and isinstance(out[1], tuple) and out[1] and out[1][0] == 'agg' and isinstance(out[2], str):
+        for k, fv in out[1][3]:
+            if k == out[2]:
+                return fv
+    return out
+
+
+def expand_enums(C, cases, depth=0):
+    """case split on the result of a private *classifier*: a function of this crate whose every result is a literal variant
+    of an enum of its own (`match Kind::from(dep) { Kind::A(p) => .., Kind::B | Kind::C => .. }`).  An atom
+    `classify(x) is {A, ..}` is replaced by the guards under which the classifier answers one of those variants, and the
+    payloads `(classify(x) as A).0` in the other atoms and in the result by the values the classifier put there: the same
+    cases as with the classifier's `match` written at the place of the call."""
+    out = []
+    for atoms, sh in cases:
+        target = None
+        if depth <= 3:
+            for a in atoms:
+                cands = [a] if a[0] == 'is' else (list(a[1]) if a[0] == 'nall' else [])
+                for b in cands:
+                    if b[0] == 'is' and isinstance(b[2], frozenset) and b[1][0] == 'call' and C.descend(C.prog.fns.get(b[1][1])):
+                        target = b[1]
+                        break
+                if target is not None:
+                    break
+        sub = _classified(C, target) if target is not None else None
+        if not sub:
+            out.append((atoms, sh))
+            continue
+        new = []
+        for gs, agg in sub:
+            cur, ok = [], True
+            for a in atoms:
+                if a[0] == 'is' and a[1] == target and isinstance(a[2], frozenset):
+                    ok = ok and agg[2] in a[2]
+                    continue
+                if a[0] == 'nall':
+                    # NOT all of ..: a conjunct decided true is dropped, a conjunct decided false makes the atom true
+                    keep, true = [], False
+                    for b in a[1]:
+                        if b[0] == 'is' and b[1] == target and isinstance(b[2], frozenset):
+                            true = true or agg[2] not in b[2]
+                        else:
+                            keep.append(canon(_replace(b, target, agg)))
+                    if true:
+                        continue
+                    if not keep:
+                        ok = False
+                        continue
+                    cur.append(('nall', frozenset(keep)))
+                    continue
+                cur.append(canon(_replace(a, target, agg)))
+            if ok and feasible(tuple(cur) + tuple(gs)):
+                new.append((C._uniq(tuple(cur) + tuple(gs)), _replace(sh, target, agg)))
+        out.extend(expand_enums(C, new, depth + 1))
+    return out
+
+
+def _classified(C, target):
+    """[(guards, literal variant)] of the classifier call `target`, or None when it is not one"""
+    g = C.prog.fns.get(target[1])
+    key = ('classified', target)
+    if key not in C._rows:
+        m = {(g.path, i): a for i, a in enumerate(target[2]) if i < g.argc}
+        res = []
+        for gs, xsh in C.fn_cases(g, m, ('<classifier>',)):
+            agg = peel(xsh[1]) if xsh[0] == 'val' else None
+            if agg is None or agg[0] != 'agg' or not isinstance(agg[2], str) or agg[1] in (OPTION, RESULT) or any(a[0] == '?' for a in gs):
+                res = None
+                break
+            res.append((tuple(gs), agg))
+        C._rows[key] = res
+    return C._rows[key]
 
 
 def feasible(atoms):
